@@ -202,7 +202,8 @@ class BackendVSA(Backend):
 
     def _solution(self, expr, v, extra_constraints=(), solver=None, model_callback=None):
         if isinstance(expr, BoolResult):
-            return len(set(v.value) & set(expr.value)) > 0
+            wanted = {v} if isinstance(v, bool) else set(v.value)
+            return len(wanted & set(expr.value)) > 0
 
         if isinstance(expr, StridedInterval):
             return not expr.intersection(v).is_empty
